@@ -187,11 +187,36 @@ def _check_reserved(ctx, kind, p, rm, case, origin):
                 ctx.check("msg.getters", ok3 and e is True, "parameter_object_not_equal_to_original", f"{kind}/{origin}", case, observed=repr(e))
                 if kind == "originating_id":
                     ctx.check("msg.getters", hash(v) == hash(orig) and {orig: 1}.get(v) == 1, "transaction_id_hash_differs", origin, case)
+            # hostile caller: the parameter object that was handed out is overwritten (it is the caller's now); the next decode of the
+            # same octets - k_msg decodes every message twice - must hand out the parameters in the octets again
+            _scribble_params(ctx, v)
         else:
             if not ok:
                 ctx.fail("msg.getters", "foreign_getter_raised", f"{k2}_on_{kind}/{exc_sig(v)}", case, error=repr(v))
             elif v is not None:
                 ctx.fail("msg.getters", "foreign_getter_returned_value", f"{k2}_on_{kind}", case, observed=repr(v))
+
+
+def _scribble_params(ctx, v):
+    X = C.lib()
+    for o in (v if isinstance(v, tuple) else (v,)):
+        d = getattr(o, "__dict__", None)
+        if not d:
+            continue
+        for name, a in list(d.items()):
+            try:
+                if isinstance(a, X.CfdpLv):
+                    a.value = b"\xde\xad"                       # the LV object itself ...
+                    setattr(o, name, X.CfdpLv(b"scribbled"))    # ... and the attribute that held it
+                elif hasattr(a, "byte_len") and hasattr(a, "value"):
+                    a.value = (a.value ^ 1) & ((1 << 8 * a.byte_len) - 1) if a.byte_len else a.value
+                elif isinstance(a, bool):
+                    setattr(o, name, not a)
+                elif isinstance(a, int):
+                    setattr(o, name, type(a)((int(a) + 1) % 2) if not isinstance(a, bool) and type(a) is not int else a + 1)
+                ctx.extra["hostile_caller_scribbled_parameter_attributes"] = ctx.extra.get("hostile_caller_scribbled_parameter_attributes", 0) + 1
+            except Exception:  # noqa: BLE001 - frozen / validated attributes: nothing to scribble
+                pass
 
 
 def _orig_params(kind, p):
